@@ -3,6 +3,7 @@ Driver commands for C20: element renderings come from a fixed palette shared wit
 -/
 import Driver.Util
 import Matreex.Model.Fmt
+import Matreex.Model.FmtPrims
 
 namespace Driver
 open Matreex
@@ -30,6 +31,13 @@ def cmdFmt (ws : List String) : Option String :=
     match res with
     | .error e => pure (faultStr e)
     | .ok s => pure ("ok " ++ escapeOut (String.ofList s))
+  | ["zfmt", _which, n, es] => do
+    -- a 1 x n / n x 1 matrix of a zero-sized type: too large to run; the answer is the decision of
+    -- `BridgeT15.display_source_full` / `debug_source_full` (the cache allocation of the regenerated `fmt`) for
+    -- the measured `size_of::<Lines>()`, which must be the model's
+    let n ← n.toNat?; let es ← es.toNat?
+    if es ≠ Fmt.linesSize then pure "lines-size-differs"
+    else if n ≠ 0 ∧ es * n > isizeMax then pure "panic" else pure "ok"
   | _ => none
 
 end Driver
